@@ -601,7 +601,7 @@ class LinSolveR:
     @staticmethod
     def opts(tier):
         return st.fixed_dictionaries({
-            "kind": st.sampled_from(MATRIX_KINDS), "n": st.integers(1, 8), "cplx": st.booleans(),
+            "kind": st.sampled_from(MATRIX_KINDS + ["fe_bc", "fe_bc"]), "n": st.integers(1, 8), "cplx": st.booleans(),
             "sparse": st.sampled_from([None, "csc", "csr"]), "density": st.sampled_from([1.0, 0.6, 0.3]),
             "rhs": st.sampled_from(RHS_SHAPES), "rhs_cplx": st.booleans(), "dep": st.booleans(),
             "hint": st.sampled_from([None, None, "true"]), "lda": st.booleans(),
@@ -612,12 +612,21 @@ class LinSolveR:
     def build(o, rng):
         import pymoto as pym
         kind, n = o["kind"], o["n"]
-        A = make_matrix(kind, n, rng, o["cplx"], 50.0)
-        cplx = np.iscomplexobj(A)
-        lab = ["linsolve", f"mat:{kind}", "complexA" if cplx else "realA", "sparse" if o["sparse"] else "dense",
-               f"rhs:{o['rhs']}"]
         mask = None
-        if o["sparse"] and o["density"] < 1.0 and kind not in ("diag",):
+        fe = kind == "fe_bc"
+        if fe:
+            # FE matrix with Dirichlet rows/columns decoupled (LDAWrapper solves those dofs by division)
+            dom = make_domain({"nel": [1 + n % 3, 1 + (n // 3) % 3, 0], "unit": [1.0, 1.5, 1.0]})
+            A = np.asarray(fe_matrix(rng, dom, "stiffness" if o["cplx"] else "poisson", "left").toarray())
+            n = A.shape[0]
+            mask = A != 0
+            kind = "spd"
+        else:
+            A = make_matrix(kind, n, rng, o["cplx"], 50.0)
+        cplx = np.iscomplexobj(A)
+        lab = ["linsolve", f"mat:{o['kind']}", "complexA" if cplx else "realA", "sparse" if o["sparse"] else "dense",
+               f"rhs:{o['rhs']}"]
+        if not fe and o["sparse"] and o["density"] < 1.0 and kind not in ("diag",):
             mask = pattern_mask(rng, n, o["density"])
             if kind in HERMITIAN_KINDS or kind == "complex_sym":
                 mask = mask | mask.T
@@ -702,7 +711,7 @@ class SysOfEqR:
     def opts(tier):
         return st.fixed_dictionaries({
             "kind": st.sampled_from(["spd", "sym_indef", "general", "herm_pd", "complex_sym"]),
-            "n": st.integers(2, 8), "cplx": st.booleans(), "fmt": st.sampled_from(["csc", "csr"]),
+            "n": st.integers(2, 8), "cplx": st.booleans(), "fmt": st.sampled_from(["csc", "csr", "dense"]),
             "npres": st.integers(1, 4), "give": st.sampled_from(["both", "free", "prescribed"]),
             "block": st.booleans(), "seedmask": st.sampled_from([[1, 1], [1, 0], [0, 1]]),
         })
@@ -719,7 +728,7 @@ class SysOfEqR:
         # the free block must be non-singular
         if np.linalg.cond(A[np.ix_(f, f)]) > 1e3:
             A = A + (np.eye(n) * (np.abs(A).max() * 2) if kind in ("spd", "herm_pd", "general") else 0)
-        Asp = sps.csc_matrix(A) if o["fmt"] == "csc" else sps.csr_matrix(A)
+        Asp = A.copy() if o["fmt"] == "dense" else (sps.csc_matrix(A) if o["fmt"] == "csc" else sps.csr_matrix(A))
         k = (2,) if o["block"] else ()
         # real sparse matrix: keep rhs real (documented restriction of the inner LinSolve)
         bf = sig(rnd(rng, (len(f), *k), cplx), "bf")
@@ -731,9 +740,11 @@ class SysOfEqR:
         if o["give"] in ("both", "prescribed"):
             kw["prescribed"] = p
         mod = pym.SystemOfEquations([a, bf, xp], [sig(None, "x"), sig(None, "b")], **kw)
-        vA = sps.csc_matrix(class_direction(kind, n, rng, cplx))
+        vA = class_direction(kind, n, rng, cplx)
+        if o["fmt"] != "dense":
+            vA = sps.csc_matrix(vA)
         dirs = [vA, rnd(rng, bf.state.shape, cplx), rnd(rng, xp.state.shape, cplx)]
-        lab = ["sysofeq", f"mat:{kind}", "complex" if cplx else "real", f"give:{o['give']}",
+        lab = ["sysofeq", f"mat:{kind}", "complex" if cplx else "real", f"give:{o['give']}", f"fmt:{o['fmt']}",
                "block" if o["block"] else "vector", "seed:" + "".join(map(str, o["seedmask"]))]
         return Built(mod, mod.sig_in, mod.sig_out, dirs, default_seeds(o["seedmask"]), linear=False, h=2e-3,
                      labels=lab, tol=1e-6)
@@ -745,7 +756,7 @@ class StaticCondR:
     def opts(tier):
         return st.fixed_dictionaries({
             "kind": st.sampled_from(["spd", "sym_indef", "general"]), "n": st.integers(3, 9),
-            "fmt": st.sampled_from(["csc", "csr"]), "nmain": st.integers(1, 3), "npres": st.integers(0, 2),
+            "fmt": st.sampled_from(["csc", "csr", "dense"]), "nmain": st.integers(1, 3), "npres": st.integers(0, 2),
             "seed": st.sampled_from(["dense", "dyad"]),
         })
 
@@ -761,17 +772,20 @@ class StaticCondR:
         f = np.sort(perm[nmain + npres:])
         if np.linalg.cond(A[np.ix_(f, f)]) > 1e3:
             A = A + np.eye(n) * np.abs(A).max() * 2
-        Asp = sps.csc_matrix(A) if o["fmt"] == "csc" else sps.csr_matrix(A)
+        Asp = A.copy() if o["fmt"] == "dense" else (sps.csc_matrix(A) if o["fmt"] == "csc" else sps.csr_matrix(A))
         a = sig(Asp, "A")
         mod = pym.StaticCondensation(a, sig(None, "Ared"), main=m, free=f)
-        vA = sps.csc_matrix(class_direction(kind, n, rng, False))
+        vA = class_direction(kind, n, rng, False)
+        if o["fmt"] != "dense":
+            vA = sps.csc_matrix(vA)
         nm = len(m)
 
         def seeds(r, ys):
             if o["seed"] == "dense":
                 return [rnd(r, (nm, nm))]
             return [pym.DyadCarrier(rnd(r, (nm,)), rnd(r, (nm,)))]
-        lab = ["staticcond", f"mat:{kind}", f"seed:{o['seed']}", "prescribed" if npres else "noprescribed"]
+        lab = ["staticcond", f"mat:{kind}", f"seed:{o['seed']}", "prescribed" if npres else "noprescribed",
+               f"fmt:{o['fmt']}"]
         return Built(mod, mod.sig_in, mod.sig_out, [vA], seeds, linear=False, h=2e-3, labels=lab, tol=1e-6)
 
 
